@@ -169,6 +169,15 @@ RenderFragStep(c, f) ==
         /\ bound' = [bound EXCEPT ![f] = Bind(@, Refs(r[1]), Bare(r[1]))]
   /\ UNCHANGED <<cells, ntok>>
 
+\* s.Render(w) / s.GoString(): a fresh, empty File for this call only - no File of the system is touched
+EmptyCfg == [local |-> "", prefix |-> "", hints |-> <<>>, paths |-> PathInfo]
+RenderPlainStep(c) ==
+  /\ Step /\ H("Plain", 0, c, 0, "", "", <<>>)
+  /\ LET r == RenderFragment(EmptyCfg, Tree(cells, c), <<>>)
+     IN obs' = [kind |-> "plain", f |-> 0, c |-> c, text |-> Flat(r[1]), toks |-> Toks(r[1]), refs |-> Refs(r[1]), bare |-> Bare(r[1]),
+                specs |-> {}, imps |-> r[2]]
+  /\ UNCHANGED <<cells, files, ntok, bound>>
+
 \* the end of a behaviour: its history is exported for the replay harness
 OutFile == "system.ndjson"
 Finish == /\ nops = MaxOps /\ nops' = MaxOps + 1
@@ -183,6 +192,7 @@ Next ==
   \/ \E f \in DOMAIN files, c \in DOMAIN cells : FileAdd(f, c) \/ RenderFragStep(c, f)
   \/ \E f \in DOMAIN files, p \in Paths : Anon(f, p) \/ \E n \in HintNames : ImportAlias(f, p, n) \/ (n # "." /\ ImportName(f, p, n))
   \/ \E f \in DOMAIN files : RenderFileStep(f)
+  \/ \E c \in DOMAIN cells : RenderPlainStep(c)
   \/ Finish
 Spec == Init /\ [][Next]_vars
 
@@ -202,12 +212,12 @@ Sys_Unique ==
                                  => (s1.name # s2.name /\ (s2.name = "" => s1.name \notin RealNames(obs.f, s2.path)))
 \* C06
 Sys_LocalDot ==
-  obs.kind # "none" =>
+  obs.kind \in {"file", "frag"} =>
     /\ \A r \in obs.refs : r[1] # files[obs.f].local
     /\ obs.kind = "file" => \A p \in obs.bare : p = files[obs.f].local \/ \E s \in obs.specs : s.path = p /\ s.name = "."
 \* C08: names are stable per File, whatever happens to the heap and to other Files
 Sys_Stable ==
-  obs.kind # "none" =>
+  obs.kind \in {"file", "frag"} =>
     /\ \A r \in obs.refs : r[1] \in DOMAIN bound[obs.f] => bound[obs.f][r[1]] = r[2]
     /\ \A p \in obs.bare : p \in DOMAIN bound[obs.f] => bound[obs.f][p] = ""
 Sys_BoundNeverChanges == [][\A f \in DOMAIN bound : \A p \in DOMAIN bound[f] : p \in DOMAIN bound'[f] /\ bound'[f][p] = bound[f][p]]_vars
@@ -215,7 +225,9 @@ Sys_BoundNeverChanges == [][\A f \in DOMAIN bound : \A p \in DOMAIN bound[f] : p
 \* the replay checks against the real library)
 Sys_FilesIndependent == [][\A f \in DOMAIN files : (hist' # hist /\ hist'[Len(hist')].f # f) => files'[f] = files[f]]_vars
 \* C08: an observation changes no Statement
-Sys_RenderPure == [][(hist' # hist /\ hist'[Len(hist')].a \in {"Render", "Frag"}) => cells' = cells]_vars
+Sys_RenderPure == [][(hist' # hist /\ hist'[Len(hist')].a \in {"Render", "Frag", "Plain"}) => cells' = cells]_vars
+\* C14: Render / GoString with their implicit fresh File touch no File of the system
+Sys_PlainTouchesNoFile == [][(hist' # hist /\ hist'[Len(hist')].a = "Plain") => files' = files]_vars
 \* C20: an append to a clone never changes what the original renders (same File state)
 Sys_CloneIsolation ==
   [][\A c \in DOMAIN cells :
